@@ -7,3 +7,8 @@ from lib import clitie
 def run(ctx):
     seqcommon.run_seq_only(ctx, "C18")
     clitie.run_property(ctx)
+
+
+def run(ctx, _inner=run):     # + T5-race (lib/racetie.py): data-race freedom, the assumption under every interleaving model; also re-runs its replay files
+    from lib import racetie
+    return racetie.stage(ctx, _inner, ["server/ipc", "cmd/lock"])
